@@ -117,8 +117,9 @@ func toMapData(data any) map[string]any {
 	if m, ok := data.(map[string]any); ok {
 		return m
 	}
-	// Try to convert struct to map using JSON tags
+	// Try to convert struct to map using JSON tags; fields stay reachable by their Go names as well
 	if m := reflect.StructToMap(data); len(m) > 0 {
+		reflect.PopulateStructFields(m, data)
 		return m
 	}
 	// Return empty map; fields will be accessible via Stack.rootData fallback
